@@ -268,11 +268,8 @@ def run(ctx):
     for rel, short, _tp in N.MODULES:
         mod = core.module(rel)
         fn = mod.func("genhkl_base")
-        txt = core.unparse(fn).replace(" ", "")
-        ok = txt.count("sintlH<=sintlmax*sintl_scale") == 1 and txt.count("sintlH>sintlmax*sintl_scale") == 2
-        ctx.check(ok, "C05:earlyexit:%s.stop-tests" % short,
-                  "the three loop exits are not `sintlH <= sintlmax*scale` (continue row) / `sintlH > sintlmax*scale` (leave plane, leave cone)",
-                  core.loc(mod, fn))
+        from props.hklwalk import analyse_tests
+        analyse_tests(ctx, mod, short, emit=("stops",))
         analyse_expand(ctx, mod, short)
     # ---- R settings
     P = OBVERSE
